@@ -4,6 +4,7 @@ hooks (registered on synthetic types), one action at a time, in the interleaving
 the observable result is compared with the specification's.  stdlib-only; needs no probe in /repo.
 
 usage: options_driver.py <behaviours.json> <out.json>"""
+import contextlib
 import json
 import queue
 import sys
@@ -182,9 +183,40 @@ def run_behaviour(beh, names):
     return bad
 
 
+def frames_independent_of_options():
+    """'with_contexts=False leaves every contexts empty without changing the frames': frame object, line, origin and
+    flags of every frame are the same under all four option pairs (a two-level delegation, where origins matter)"""
+    def inner():
+        with contextlib.ExitStack():
+            yield 1
+
+    def outer():
+        yield from inner()
+    g = outer()
+    next(g)
+    sigs = {}
+    for wc in (True, False):
+        for rct in (True, False):
+            st = stackscope.extract(g, with_contexts=wc, recurse_child_tasks=rct)
+            sigs[(wc, rct)] = [(id(f.pyframe), f.lineno, id(f.origin), bool(f.hide), bool(f.hide_line)) for f in st.frames]
+            if not wc and any(f.contexts for f in st.frames):
+                return "with_contexts=False left contexts"
+            if wc and not st.frames[-1].contexts:
+                return "with_contexts=True found no contexts in the inner frame"
+            if [f.origin for f in st.frames] != [g, g.gi_yieldfrom]:
+                return "origins under with_contexts=%s recurse_child_tasks=%s are not the generators owning the frames" % (wc, rct)
+    g.close()
+    if len({json.dumps(v) for v in sigs.values()}) != 1:
+        return "the frames (object, line, origin, flags) depend on the options: %s" % {str(k): v for k, v in sigs.items()}
+    return None
+
+
 def main():
     data = json.load(open(sys.argv[1]))
     out = {"n": 0, "steps": 0, "mismatches": []}
+    why = frames_independent_of_options()
+    if why:
+        out["mismatches"].append({"step": 0, "act": {"a": "extract under the four option pairs"}, "diff": why, "behaviour": -1})
     for bi, beh in enumerate(data["behaviours"]):
         bad = run_behaviour(beh, data["threads"])
         out["n"] += 1
